@@ -19,6 +19,7 @@ LEVEL = "model_checking"
 
 NAMESETS_MC = [["A", "B"], ["User", "UserGroup"], ["Node", "NodeItem"], ["Children", "ChildrenItem"]]
 ALL_KINDS = ["ref", "arr", "inline", "arrInline", "map", "oneOf", "anyOf", "allOf", "alias"]
+LEAF_KINDS = ["null", "empty", "bareobj", "barearr"]
 
 
 def mc_module(names: list[str], max_depth: int) -> str:
@@ -192,6 +193,10 @@ def chain_doc(sc: dict) -> tuple[dict, list[str]]:
     return concretise.wrap({"Deep": {"type": "object", "properties": {"id": {"type": "string"}, "p": node}}}), ["Deep"]
 
 
+def fold(name: str) -> str:
+    return "".join(c for c in name.lower() if c.isalnum())
+
+
 def all_names(spec: dict) -> list[str]:
     """Names the tracker may see: declared names plus promoted names (collected from the trace later)."""
     return list(spec["components"]["schemas"].keys())
@@ -226,7 +231,11 @@ def parse_and_judge(chk: Check, items: list[tuple[str, dict, list[str], Any]], m
         for e in r["ev"]:
             if e["k"] in ("enter", "exit") and e["n"] != "__none__":
                 names.add(e["n"])
-        traces.append({"id": i, "cfg": concretise.tracker_cfg([] if light else sorted(names), md), "declared": decl, "ev": r["ev"]})
+        # presence is judged up to sanitisation of the name: fold = lower-case alphanumerics (plain string operation)
+        for e in r["ev"]:
+            if e["k"] == "end":
+                e["present"] = sorted({fold(x) for x in e["present"]})
+        traces.append({"id": i, "cfg": concretise.tracker_cfg([] if light else sorted(names), md), "declared": [fold(x) for x in decl], "ev": r["ev"]})
         scen[i] = (sc, spec, r)
     vs = validate_traces(chk, traces, label)
     chk.count(len(items))
@@ -279,11 +288,15 @@ def run(chk: Check) -> None:
     if not thorough:
         fam = [(["A", "B"], 2), (["User", "UserGroup"], 1), (["Node", "NodeItem"], 1)]
     for names, k in fam:
-        docs = gen_graphs(chk, names, ALL_KINDS, k)
+        docs = gen_graphs(chk, names, ALL_KINDS + (LEAF_KINDS if names == ["A", "B"] else []), k)
         items = []
         for j, d in enumerate(docs):
             items.append((f"g{'_'.join(names)}_{j}", concretise.graph_doc(d, use_all=(j % 3 == 0)), list(d["order"]), {"order": d["order"], "edges": d["edges"]}))
         parse_and_judge(chk, items, None, f"graphs[{'+'.join(names)},<={k}]")
+    # names that CHANGE under sanitisation (snake_case) forming cycles, with an outside referrer: plain references only
+    docs = gen_graphs(chk, ["order_header", "order_line", "Invoice"], ["ref"] if not thorough else ["ref", "arr", "inline"], 3 if not thorough else 3, orders="all")
+    items = [(f"gs_{j}", concretise.graph_doc(d), list(d["order"]), {"order": d["order"], "edges": d["edges"]}) for j, d in enumerate(docs)]
+    parse_and_judge(chk, items, None, "graphs[snake_case,<=3]")
     if thorough:
         docs = gen_graphs(chk, ["A", "B", "C"], ["ref", "arr", "inline", "oneOf", "allOf"], 3, orders="all")
         items = [(f"g3_{j}", concretise.graph_doc(d), list(d["order"]), {"order": d["order"], "edges": d["edges"]}) for j, d in enumerate(docs)]
